@@ -81,6 +81,27 @@ pub fn canon_key(a: &[u8]) -> Vec<String> {
     x
 }
 
+/// Same multiset of declarations once every comment line is taken out: what a layout change of
+/// the SOURCES may not alter is the declarations; a comment that lists things in the order they
+/// were found (or a banner glued to whichever declaration happens to come first) is not one.
+pub fn decls_eq(a: &[u8], b: &[u8]) -> bool {
+    fn key(x: &[u8]) -> Vec<String> {
+        let text = strip_ts(x);
+        let code: String = text
+            .lines()
+            .filter(|l| {
+                let t = l.trim_start();
+                !(t.starts_with("//") || t.starts_with("/*") || t.starts_with('*'))
+            })
+            .map(|l| format!("{}\n", l))
+            .collect();
+        let mut v = blocks(&code);
+        v.sort();
+        v
+    }
+    key(a) == key(b)
+}
+
 /// line multiset, for the dependency-graph files (free-form text)
 pub fn lines_key(a: &[u8]) -> Vec<String> {
     let mut x: Vec<String> = String::from_utf8_lossy(a).lines().map(|l| l.to_string()).collect();
